@@ -46,7 +46,7 @@ package server
 //@     result_of(s.requestAuthorizer.AuthorizeRequest, 0) && result_of(s.requestAuthorizer.AuthorizeRequest, 1) == nil
 //@ effect[C31:website-authorizes-this-request] every s.requestAuthorizer.AuthorizeRequest(_, $req)
 //@     where $req != nil && $req.Operation == operation && $req.Bucket != nil && *$req.Bucket == bucketName.String() &&
-//@         (!ok || ($req.Key != nil && *$req.Key == objectKey.String()))
+//@         (!ok || $req.Key == nil || *$req.Key == objectKey.String())
 //@ effect[C33:website-never-mutates] every s.storage.$M(__) where $M == "GetObject" || $M == "HeadObject" || $M == "GetBucketWebsiteConfiguration"
 
 // The error document is object data too: it may only be returned under an authorization that covers its key.
